@@ -90,6 +90,20 @@ def _float_traps(max_n=160):
 _TRAPS = _float_traps()
 
 
+def _ratio_traps(max_c=70, max_k=4):
+    """(c, k): class counts c and k*c whose ratio is the integer k, but (k*c) * float32(1/c) - how torch evaluates int / tensor - lands below k"""
+    import torch
+    out = []
+    for c in range(1, max_c + 1):
+        for k in range(2, max_k + 1):
+            if float(torch.floor((k * c) / torch.tensor(c))) < k:
+                out.append((c, k))
+    return out
+
+
+_RATIO_TRAPS = _ratio_traps()
+
+
 def _pct(rng, n):
     r = rng.random()
     if r < 0.15:
@@ -124,7 +138,19 @@ def gen_cases(run):
             spec["layout"] = lay
             nn = tn
             trap = tp
-        if k in ("sort", "intra", "over_multiply", "over_exact", "fewshot", "classwise_index", "classwise_percent", "shuffle") and rng.random() < 0.03:
+        if k == "over_multiply" and _RATIO_TRAPS and rng.random() < 0.08:
+            # boundary class: the majority class is an exact multiple of a minority class, with a ratio that float32 arithmetic misses (82 / 41)
+            c_, k_ = rng.choice(_RATIO_TRAPS)
+            others = [rng.randint(1, k_ * c_) for _ in range(rng.randint(0, 3))]
+            counts_ = [c_, k_ * c_] + others
+            order_ = list(range(len(counts_)))
+            rng.shuffle(order_)
+            cls_ = [ci for ci, cnt in zip(order_, counts_) for _ in range(cnt)]
+            rng.shuffle(cls_)
+            lay = {"n": len(cls_), "ncls": len(counts_), "classes": cls_}
+            spec["layout"] = lay
+            nn = lay["n"]
+        elif k in ("sort", "intra", "over_multiply", "over_exact", "fewshot", "classwise_index", "classwise_percent", "shuffle") and rng.random() < 0.03:
             # boundary class: more samples than a narrow label dtype can count (labels stored as uint8 / int8 / int16, as label files do)
             big_n = rng.randint(300, 700)
             ncls_b = rng.randint(2, 8)
